@@ -278,7 +278,7 @@ func c07Run(c *core.Ctx) {
 		} else if c.WantSample() && idx%9973 == 0 {
 			c.Sample(map[string]interface{}{"config": cs.Cfg.String(), "input": string(cs.Input), "expected": cs.Want})
 		}
-		return idx%1024 != 0 || !c.TimeUp()
+		return !c.TimeUpEvery(64)
 	}
 	maxSym := 2
 	if !c.Quick() {
